@@ -3,12 +3,12 @@ FRAGMENT = {
  'C11': {'bin': 'w_c11',
  'world': 'c11',
  'level': 'exploration',
- 'quick': {'runs': 160000, 'budget_s': 30, 'workers': 16},
+ 'quick': {'runs': 120000, 'budget_s': 30, 'workers': 16},
  'thorough': {'runs': 6000000, 'budget_s': 600, 'workers': 16, 'det_sample': 200},
  'level_text': 'seeded exploration of registration histories (register / unregister / legacy add / legacy remove, masks 0, single bits, unions, -1, '
                '2-6 handler identities in four function/user-pointer layouts) x re-entrancy scripts (which handler does what to itself, the next, the '
                'previous, the first, the last or a named handler at its n-th invocation) x event sources (direct vbi_send_event and real sliced data '
-               'through vbi_decode: Teletext pages, caption words, XDS, VPS, 8/30 format 1 and 2, WSS) against an ordered-list reference model; the '
+               'through vbi_decode: Teletext pages, caption words, XDS, VPS, 8/30 format 1 and 2, WSS, immediate and deferred ITV triggers) against an ordered-list reference model; the '
                'real dispatcher and service decoders under ASan+UBSan; sampling, not proof',
  'level_note': 'trusted: the reference model (written from the statement and the documentation of vbi_event_handler_register), the link-time seam '
                '-Wl,--wrap=vbi_send_event that brackets each raised event (events raised from inside vbi.c by a channel switch are not bracketed and are '
@@ -26,8 +26,8 @@ FRAGMENT = {
                  'fault_cb_rereg_self', 'fault_cb_rereg_other', 'fault_cb_mask_change', 'fault_cb_add_new', 'fault_cb_legacy_add',
                  'fault_cb_legacy_remove'],
  'components': {'real': ['src/vbi.c (vbi_event_handler_register/unregister/add/remove, vbi_event_enable, vbi_send_event, vbi_decode)',
-                         'src/packet.c (Teletext acquisition gate, 8/30, VPS)', 'src/caption.c', 'src/wss.c', 'src/cache.c'],
-                'stub': ['re-entrancy script interpreter (handler callbacks)', 'Teletext / caption / XDS / VPS / 8/30 / WSS transmitters',
+                         'src/packet.c (Teletext acquisition gate, 8/30, VPS)', 'src/caption.c', 'src/wss.c', 'src/trigger.c', 'src/cache.c'],
+                'stub': ['re-entrancy script interpreter (handler callbacks)', 'Teletext / caption / XDS / VPS / 8/30 / WSS / ITV trigger transmitters',
                          'link-time bracket around vbi_send_event']},
  'assumptions': ['legacy vbi_event_handler_add matches on the function only: it changes the mask of every registration of that function (each keeps its own '
                  'user pointer and position) or removes them all when the mask is 0, and appends (function, user) only when none matched',
